@@ -12,7 +12,9 @@ import (
 	"fmt"
 	"os"
 	"path/filepath"
+	"runtime"
 	"sort"
+	"sync"
 
 	"github.com/buildbarn/bb-remote-execution/pkg/builder"
 	"github.com/buildbarn/bb-remote-execution/pkg/cas"
@@ -37,6 +39,7 @@ type naiveProfile struct {
 	Concurrency int64    `json:"concurrency"`
 	Placed      []string `json:"placed,omitempty"`
 	Digest      string   `json:"digest_function"`
+	Scenario    string   `json:"scenario"`
 }
 
 func runNaiveCase(r *ev.Run, idx int) {
@@ -51,12 +54,18 @@ func runNaiveCase(r *ev.Run, idx int) {
 		Concurrency: int64(1 + rng.IntN(8)),
 		Digest:      dfName,
 	}
-	if rng.IntN(10) < 3 {
-		if rng.IntN(4) == 0 {
+	// Every fourth case is malformed; the kinds are cycled through, so that
+	// each refusal arm of the naive driver is reached in every run.
+	if idx%4 == 0 {
+		if k := (idx / 4) % (len(malformedKinds) + 1); k == len(malformedKinds) {
 			prof.BrokenBlobs = true
 		} else {
-			prof.Malformed = malformedKinds[rng.IntN(len(malformedKinds))]
+			prof.Malformed = malformedKinds[k]
 		}
+	}
+	prof.Scenario = []string{"plain", "transient-fault", "vanished-cache-file"}[idx%3]
+	if idx%3 == 2 {
+		prof.Hardlinking, prof.CacheFiles = true, 1000
 	}
 	g := &gen{rng: rng, df: df, malKind: prof.Malformed, deep: rng.IntN(5) == 0}
 	if g.malKind != "" {
@@ -151,7 +160,14 @@ func runNaiveCase(r *ev.Run, idx int) {
 
 	hist := []string{}
 	nontrivial := false
-	for round := 0; round < 2; round++ {
+	fileGets := func() int {
+		n := 0
+		for _, b := range g.blobs {
+			n += store.getCount(b.digest)
+		}
+		return n
+	}
+	for round := 0; round < 3; round++ {
 		name := fmt.Sprintf("action%d", round)
 		if err := bd.Mkdir(comp(name), 0o777); err != nil {
 			r.Inconclusive("mkdir action directory: %v", err)
@@ -162,18 +178,36 @@ func runNaiveCase(r *ev.Run, idx int) {
 			r.Inconclusive("enter action directory: %v", err)
 			return
 		}
-		fileGets := func() int {
-			n := 0
-			for _, b := range g.blobs {
-				n += store.getCount(b.digest)
+		faulted := false
+		if round == 0 && prof.Scenario == "transient-fault" && !expectFailure {
+			// One storage error somewhere during the eager merge.
+			store.armAny(1, faultErrors[rng.IntN(len(faultErrors))])
+			faulted = true
+		}
+		if round == 1 && prof.Scenario == "vanished-cache-file" && !expectFailure {
+			// Something outside the worker removed files from the
+			// hardlinking cache: bookkeeping and disk disagree.
+			ents, _ := os.ReadDir(filepath.Join(tmp, "cache"))
+			removed := 0
+			for i, en := range ents {
+				if i%2 == 0 && os.Remove(filepath.Join(tmp, "cache", en.Name())) == nil {
+					removed++
+				}
 			}
-			return n
+			hist = append(hist, fmt.Sprintf("vanished:%v", removed > 0))
+			if removed > 0 {
+				defer r.Situation("naive-vanished-cache-file-repaired")
+			}
 		}
 		getsBefore := fileGets()
 		err = ad.MergeDirectoryContents(ctx, errLog, root.digest, nil)
-		ad.Close()
+		fired := 0
+		if faulted {
+			fired = store.disarm()
+		}
 		hist = append(hist, fmt.Sprintf("merge:%v", err == nil))
 		if expectFailure {
+			ad.Close()
 			if err == nil {
 				violate("malformed accepted kind="+prof.Malformed, "MergeDirectoryContents of a tree with a malformed directory or broken blob succeeded",
 					map[string]any{"placed": g.malUsed, "broken_blobs": prof.BrokenBlobs})
@@ -183,23 +217,42 @@ func runNaiveCase(r *ev.Run, idx int) {
 			nontrivial = true
 			continue
 		}
+		if err != nil && fired > 0 {
+			// The storage error surfaced; the next action (fresh
+			// directory, no fault) has to get the right tree.
+			ad.Close()
+			r.Situation("naive-transient-fault-then-clean-merge")
+			nontrivial = true
+			continue
+		}
 		if err != nil {
-			violate("fidelity merge-failed", fmt.Sprintf("MergeDirectoryContents of a well-formed tree failed: %v", err), nil)
+			ad.Close()
+			violate("fidelity merge-failed", fmt.Sprintf("round %d: MergeDirectoryContents of a well-formed tree failed: %v", round, err), nil)
 			return
 		}
 		if problem, extra := compareOnDisk(filepath.Join(tmp, "build", name), root, 0); problem != "" {
+			ad.Close()
 			violate("fidelity "+problem, fmt.Sprintf("round %d: %v", round, extra), extra)
 			return
 		}
 		r.Situation("naive-fidelity")
 		nontrivial = true
-		if round == 1 && prof.Hardlinking && prof.CacheFiles >= 1000 {
+		if round == 1 && prof.Hardlinking && prof.CacheFiles >= 1000 && prof.Scenario == "plain" {
 			// With a large cache the second action needs no file blob.
 			if fileGets() == getsBefore && root.expanded > 1 {
 				r.Situation("naive-hardlink-cache-hit")
 				hist = append(hist, "cache-hit")
 			}
 		}
+		// Fetching a file onto a name that already exists has to fail
+		// (this is what makes duplicate names surface as errors here),
+		// whether the blob comes from the cache or from storage.
+		if problem := existingDestinationRefused(ctx, r, fileFetcher, filepath.Join(tmp, "build", name), root, g); problem != "" {
+			ad.Close()
+			violate("malformed existing-destination-overwritten-or-accepted", fmt.Sprintf("round %d: %s", round, problem), nil)
+			return
+		}
+		ad.Close()
 	}
 	if w := store.writes(); len(w) != 0 {
 		violate("immutability cas-written", fmt.Sprintf("the CAS write log is not empty: %v", w), nil)
@@ -271,4 +324,193 @@ func compareOnDisk(dir string, ref *refDir, depth int) (string, map[string]any) 
 		}
 	}
 	return "", nil
+}
+
+// existingDestinationRefused calls the FileFetcher for names that already
+// exist in the freshly merged root directory and checks that every call
+// fails and leaves the existing entry alone.
+func existingDestinationRefused(ctx context.Context, r *ev.Run, ff cas.FileFetcher, diskPath string, root *refDir, g *gen) string {
+	dir, err := filesystem.NewLocalDirectory(path.LocalFormat.NewParser(diskPath))
+	if err != nil {
+		return ""
+	}
+	defer dir.Close()
+	n := 0
+	for _, e := range root.entries {
+		if n >= 3 {
+			break
+		}
+		if e.kind == kindDir {
+			continue
+		}
+		for _, b := range g.blobs {
+			if b.state != blobOK || (e.kind == kindFile && b == e.blob) {
+				continue
+			}
+			before, _ := os.Lstat(filepath.Join(diskPath, e.name))
+			err := ff.GetFile(ctx, b.digest, dir, comp(e.name), e.exec)
+			after, _ := os.Lstat(filepath.Join(diskPath, e.name))
+			if err == nil {
+				return fmt.Sprintf("GetFile onto existing %q (%s) succeeded", e.name, kindName(e.kind))
+			}
+			if before == nil || after == nil || before.Mode() != after.Mode() || before.Size() != after.Size() || !os.SameFile(before, after) {
+				return fmt.Sprintf("existing %q (%s) changed after a refused GetFile", e.name, kindName(e.kind))
+			}
+			if e.kind == kindFile {
+				if data, rerr := os.ReadFile(filepath.Join(diskPath, e.name)); rerr != nil || !bytes.Equal(data, e.blob.data) {
+					return fmt.Sprintf("contents of existing %q changed after a refused GetFile", e.name)
+				}
+			}
+			r.Situation("hardlink-existing-destination-refused")
+			n++
+			break
+		}
+	}
+	return ""
+}
+
+// runHardlinkStress drives the HardlinkingFileFetcher directly: several
+// goroutines fetch a few blobs (both executable flavours) into their own
+// directories through one fetcher with a tiny cache, so that evictions,
+// concurrent downloads of one key and links from the cache overlap. Every
+// successful GetFile has to leave exactly the requested bytes and mode at the
+// destination; a GetFile onto an existing name has to fail and change
+// nothing; at the end the cache holds at most maxFiles files and each of
+// them is the blob its name says.
+func runHardlinkStress(r *ev.Run, idx int) {
+	rng := r.Rand(171717, uint64(idx))
+	df, dfName := pickDigestFunction(rng)
+	maxFiles := 1 + rng.IntN(3)
+	maxSize := []int64{1 << 30, 3000, 300}[rng.IntN(3)]
+	workers := 3 + rng.IntN(5)
+	r.Case("hardlink-stress case=%d digest=%s maxFiles=%d maxSize=%d workers=%d", idx, dfName, maxFiles, maxSize, workers)
+	g := &gen{rng: rng, df: df}
+	g.makeBlobs(false)
+	blobs := g.blobs
+	if len(blobs) > 6 {
+		blobs = blobs[:6]
+	}
+	store := newFakeCAS()
+	populate(store, g)
+	hashBefore := store.contentHash()
+	violate := func(sig, detail string) {
+		r.Violation("C17 naive "+sig, fmt.Sprintf("hardlink stress case %d: %s", idx, detail),
+			map[string]any{"seed": r.Seed(), "case": idx, "naive": true, "stress": true, "max_files": maxFiles, "max_size": maxSize, "workers": workers})
+	}
+	tmp, err := os.MkdirTemp("", "verif-c17-hl-")
+	if err != nil {
+		r.Inconclusive("cannot create temporary directory: %v", err)
+		return
+	}
+	defer os.RemoveAll(tmp)
+	os.Mkdir(filepath.Join(tmp, "cache"), 0o777)
+	cacheDir, err := filesystem.NewLocalDirectory(path.LocalFormat.NewParser(filepath.Join(tmp, "cache")))
+	if err != nil {
+		r.Inconclusive("open cache directory: %v", err)
+		return
+	}
+	defer cacheDir.Close()
+	ff := cas.NewHardlinkingFileFetcher(cas.NewBlobAccessFileFetcher(store), cacheDir, maxFiles, maxSize, eviction.NewLRUSet[string]())
+	ctx := context.Background()
+
+	type problem struct{ sig, detail string }
+	problems := make(chan problem, workers)
+	var wg sync.WaitGroup
+	for w := 0; w < workers; w++ {
+		wdir := filepath.Join(tmp, fmt.Sprintf("w%d", w))
+		os.Mkdir(wdir, 0o777)
+		wrng := r.Rand(171717, uint64(idx), uint64(w+1))
+		wg.Add(1)
+		go func() {
+			defer wg.Done()
+			dir, err := filesystem.NewLocalDirectory(path.LocalFormat.NewParser(wdir))
+			if err != nil {
+				return
+			}
+			defer dir.Close()
+			type made struct {
+				name string
+				b    *blob
+				exec bool
+			}
+			var have []made
+			for op := 0; op < 40; op++ {
+				b := blobs[wrng.IntN(len(blobs))]
+				exec := wrng.IntN(2) == 0
+				if len(have) > 0 && wrng.IntN(5) == 0 {
+					ex := have[wrng.IntN(len(have))]
+					if err := ff.GetFile(ctx, b.digest, dir, comp(ex.name), exec); err == nil {
+						problems <- problem{"malformed existing-destination-overwritten-or-accepted", fmt.Sprintf("GetFile onto existing %s succeeded", ex.name)}
+						return
+					}
+					data, rerr := os.ReadFile(filepath.Join(wdir, ex.name))
+					fi, serr := os.Lstat(filepath.Join(wdir, ex.name))
+					if rerr != nil || serr != nil || !bytes.Equal(data, ex.b.data) || (fi.Mode().Perm()&0o111 != 0) != ex.exec {
+						problems <- problem{"malformed existing-destination-overwritten-or-accepted", fmt.Sprintf("existing %s changed after a refused GetFile", ex.name)}
+						return
+					}
+					r.Situation("hardlink-existing-destination-refused")
+					continue
+				}
+				name := fmt.Sprintf("f%d", op)
+				if err := ff.GetFile(ctx, b.digest, dir, comp(name), exec); err != nil {
+					problems <- problem{"fidelity getfile-failed", fmt.Sprintf("GetFile(%s, exec=%v) = %v", b.digest, exec, err)}
+					return
+				}
+				data, rerr := os.ReadFile(filepath.Join(wdir, name))
+				fi, serr := os.Lstat(filepath.Join(wdir, name))
+				switch {
+				case rerr != nil || serr != nil:
+					problems <- problem{"fidelity lstat-failed", fmt.Sprintf("%s: %v %v", name, rerr, serr)}
+					return
+				case !bytes.Equal(data, b.data):
+					problems <- problem{"fidelity content-mismatch", fmt.Sprintf("%s: %d bytes, expected %d (%s)", name, len(data), len(b.data), b.digest)}
+					return
+				case (fi.Mode().Perm()&0o111 != 0) != exec:
+					problems <- problem{"fidelity executable-bit-mismatch", fmt.Sprintf("%s: mode %s, expected exec=%v", name, fi.Mode(), exec)}
+					return
+				case fi.Mode().Perm()&0o222 != 0:
+					problems <- problem{"fidelity input-file-writable-mode", fmt.Sprintf("%s: mode %s", name, fi.Mode())}
+					return
+				}
+				have = append(have, made{name, b, exec})
+				if wrng.IntN(4) == 0 {
+					runtime.Gosched()
+				}
+			}
+		}()
+	}
+	wg.Wait()
+	close(problems)
+	for p := range problems {
+		violate(p.sig, p.detail)
+		return
+	}
+	// Quiescent: what the cache holds.
+	want := map[string]*blob{}
+	for _, b := range g.blobs {
+		want[b.digest.GetKey(digest.KeyWithoutInstance)+"+x"] = b
+		want[b.digest.GetKey(digest.KeyWithoutInstance)+"-x"] = b
+	}
+	ents, _ := os.ReadDir(filepath.Join(tmp, "cache"))
+	if len(ents) > maxFiles {
+		violate("cache hardlink-cache-exceeds-maximum-file-count", fmt.Sprintf("%d files cached, maximum %d", len(ents), maxFiles))
+		return
+	}
+	for _, en := range ents {
+		b, ok := want[en.Name()]
+		data, rerr := os.ReadFile(filepath.Join(tmp, "cache", en.Name()))
+		fi, _ := os.Lstat(filepath.Join(tmp, "cache", en.Name()))
+		if !ok || rerr != nil || !bytes.Equal(data, b.data) || fi == nil || (fi.Mode().Perm()&0o111 != 0) != (en.Name()[len(en.Name())-2:] == "+x") {
+			violate("cache hardlink-cache-entry-mismatch", fmt.Sprintf("cache file %q does not hold the blob (and mode) its name says", en.Name()))
+			return
+		}
+	}
+	if len(store.writes()) != 0 || store.contentHash() != hashBefore {
+		violate("immutability cas-written", "the fake CAS changed")
+		return
+	}
+	r.Situation("hardlink-fetcher-stress-rounds")
+	r.Hash(ev.HashOf("hardlink-stress", maxFiles, maxSize, workers, len(ents)), true)
+	r.Count("hardlink_stress_rounds", 1)
 }
